@@ -86,7 +86,15 @@ func RunOne(spec *PropSpec, master uint64, run int, tier string, keepLog bool, s
 			return r.Violation
 		}
 		// the replay of the recorded ops must reproduce before anything is reported
-		if v := same(tr.Clone()); v == nil || v.Oracle != res.Violation.Oracle {
+		// (a tree whose behaviour depends on something no seed controls, e.g. Go map iteration order, may need
+		// several attempts; on a deterministic tree the first one reproduces)
+		var v *Violation
+		for attempt := 0; attempt < 6; attempt++ {
+			if v = same(tr.Clone()); v != nil && v.Oracle == res.Violation.Oracle {
+				break
+			}
+		}
+		if v == nil || v.Oracle != res.Violation.Oracle {
 			res.Harness = fmt.Sprintf("violation %q did not reproduce on in-process replay (got %v)", res.Violation.Oracle, v)
 			res.Violation = nil
 			return res
